@@ -378,6 +378,12 @@ def has_default_param(text):
     return False
 
 
+def has_staging_token(text):
+    """the text has macro-stage code (compiled by the bytecode generator for both backends)"""
+    t = toks_of(text)
+    return any(x in t for x in ("$", "`", "!", "stage", "macro"))
+
+
 def in_file(e, name):
     return e["file"].endswith(name)
 
@@ -418,31 +424,31 @@ CLASSES = {
             (in_file(e, RECCHK) and "entered unreachable code" in e["msg"])
             or (in_file(e, TYPING) and re.search(r'"(self|_)" should not be shown at type inference stage', e["msg"]) and e["stage"] in EMIT)
             or (in_file(e, BCGEN) and re.match(r"value extfun \S+ ! not found", e["msg"])
-                and (e["stage"] == "emit_bytecode" or (e["stage"] == "emit_wasm" and "stage" in toks_of(e["text"]))))),
+                and (e["stage"] == "emit_bytecode" or (e["stage"] == "emit_wasm" and has_staging_token(e["text"]))))),
     # F47: unimplemented!() arm of typing for Assign(ArrayAccess, _)
     "assignment-to-index-expression":
         lambda e: e["kind"] == "panic" and in_file(e, TYPING) and "Assignment to array is not implemented yet" in e["msg"],
     # F48: unit value (Value::None) moved / stored by the bytecode generator
     "unit-value-in-if-arm-or-let":
         lambda e: e["kind"] == "panic" and in_file(e, BCGEN) and e["msg"].startswith("value none not found")
-        and (e["stage"] == "emit_bytecode" or (e["stage"] == "emit_wasm" and "stage" in toks_of(e["text"]))),
+        and (e["stage"] == "emit_bytecode" or (e["stage"] == "emit_wasm" and has_staging_token(e["text"]))),
     # F49: assignment whose target typing accepts but mirgen has no variable for
     "assignment-target-not-a-variable":
         lambda e: e["kind"] == "panic" and e["stage"] in EMIT and in_file(e, MIRGEN)
         and ("Invalid assignment target" in e["msg"] or e["msg"].startswith("Expected record type for field access assignment")),
-    # F50: default parameter values are not type checked; mirgen infers them lazily and panics / asserts
-    "default-value-not-type-checked":
-        lambda e: e["kind"] == "panic" and e["stage"] in EMIT and in_file(e, MIRGEN)
-        and (e["msg"].startswith("type inference failed for expr") or e["msg"].startswith("assertion failed: tys.windows(2)"))
-        and (has_default_param(e["text"]) or has_incomplete_record(e["text"]) or e["parse_errors"])
-        or (e["kind"] == "panic" and e["stage"] == "emit_bytecode" and in_file(e, BCGEN) and has_default_param(e["text"])
-            and re.match(r"value extfun \S+ ! not found", e["msg"]) is not None),
+    # F50: mirgen::eval_expr infers the type of every expression AGAIN and panics on Err (and debug-asserts array element types):
+    #      whatever the first pass did not see or judged differently ends here
+    "mirgen-reinference-fails":
+        lambda e: e["kind"] == "panic" and ((e["stage"] in EMIT and in_file(e, MIRGEN)
+        and (e["msg"].startswith("type inference failed for expr") or e["msg"].startswith("assertion failed: tys.windows(2)")))
+        or (e["stage"] == "emit_bytecode" and in_file(e, BCGEN) and has_default_param(e["text"])
+            and re.match(r"value extfun \S+ ! not found", e["msg"]) is not None)),
     # F51: occurs check misses function / code / ref types: cyclic type, infinite recursion (stack overflow whatever the stack size)
     "cyclic-type-infinite-recursion":
         lambda e: e["kind"] == "abort" and e["stage"] in ("typecheck",) + EMIT and e.get("still_aborts_with_big_stack", False),
     # F52: lower_macro_expand takes the first QualifiedPath among ALL children (arguments included) as the callee
     "macro-callee-taken-from-arguments":
-        lambda e: e["kind"] == "badspan" and re.search(r'Variable "[^"]*" not found', e["msg"]) is not None
+        lambda e: e["kind"] == "badspan" and re.search(r"Variable ", e["msg"]) is not None
         and "!" in toks_of(e["text"]) and "::" in toks_of(e["text"]) and span_reversed(e["msg"]),
     # F53: typing Proj: `vec.len() < idx` instead of `<=`
     "tuple-projection-index-equals-arity":
@@ -472,6 +478,10 @@ CLASSES["fabricated-span-0-1-inside-multibyte-char"] = (
     and len(e["text"]) > 0 and len(e["text"][0].encode("utf-8")) > 1)
 
 
+CLASSES["delay-size-not-a-literal"] = (
+    # F59: the maximum delay time must be a number literal; nothing checks it before mirgen
+    lambda e: e["kind"] == "panic" and e["stage"] in EMIT and in_file(e, MIRGEN) and "unbounded delay access" in e["msg"]
+    and "delay" in toks_of(e["text"]))
 CLASSES["letrec-of-non-function"] = (
     # F58: mirgen binds the name of a `letrec` to Value::Function(next index) before looking at the bound expression; when that is
     #      no lambda the index names no function
